@@ -84,6 +84,16 @@ fn cases_attacks(_rng: &mut Rng, sink: &mut dyn FnMut(J) -> bool) {
     for who in ["issuer", "other_holder_same_family", "other_holder_other_family", "hs_with_public_key"] {
         attacks.push(json!({"kind": "resigned", "by": who}));
     }
+    // a conformant KB-JWT built independently of the library's holder (typ, aud, nonce, iat, sd_hash)
+    attacks.push(json!({"kind": "independent_kb"}));
+    attacks.push(json!({"kind": "independent_kb", "select": "nothing"}));
+    // KB-JWT re-signed by a key that is NOT the confirmed holder key, announcing that key (or
+    // pointers to it) in its own protected header; typ / aud / nonce / sd_hash all correct
+    for signer in ["es256", "eddsa", "es256-b", "eddsa-b"] {
+        for hp in [json!({"jwk": true}), json!({"jwk": true, "kid": "attacker-key"}), json!({"kid": "attacker-key"}), json!({"jku": "https://attacker.example/keys", "kid": "k"}), json!({"x5u": "https://attacker.example/cert"}), json!({"x5c": ["MIIB"]}), json!({"jwk": true, "x5c": ["MIIB"], "jku": "https://attacker.example/keys"})] {
+            attacks.push(json!({"kind": "kb_header", "signer": signer, "header": hp}));
+        }
+    }
     // a copy of a disclosure inserted after the KB-JWT was signed
     for whre in ["adjacent", "before", "end", "front", "twice_adjacent"] {
         for index in [0, 1, 3, 7] {
@@ -377,6 +387,44 @@ pub fn check(case: &J) -> Verdict {
                 }
             };
             expect_reject(verify(&text, Some(&kb.aud), Some(&kb.nonce)), &format!("a KB-JWT replayed ({how})"))
+        }
+        "independent_kb" => {
+            let Some(k) = make_kb(&holder_key, holder_alg, Some("kb+jwt"), &honest_claims) else { return Verdict::Trivial };
+            // the library holder's own KB-JWT must carry the same claim names
+            let own: Option<J> = kb_jwt.split('.').nth(1).and_then(crate::util::b64d).and_then(|b| serde_json::from_slice(&b).ok());
+            if let Some(own) = &own {
+                for f in ["nonce", "aud", "sd_hash"] {
+                    if own.get(f) != honest_claims.get(f) {
+                        return fail(format!("the holder's KB-JWT payload is {}", jstr(own)), format!("member `{f}` = {}", honest_claims[f]));
+                    }
+                }
+            }
+            expect_accept(verify(&with_kb(Some(k)), Some(&kb.aud), Some(&kb.nonce)), "a conformant KB-JWT (typ kb+jwt, holder key, aud, nonce, sd_hash) built independently of the library's holder")
+        }
+        "kb_header" => {
+            let signer = attack["signer"].as_str().unwrap_or("es256");
+            let hp = &attack["header"];
+            let mut header = jsonwebtoken::Header::new(std::str::FromStr::from_str(keys::holder_alg(signer)).unwrap());
+            header.typ = Some("kb+jwt".into());
+            if hp["jwk"].as_bool().unwrap_or(false) {
+                header.jwk = serde_json::from_value(keys::holder_jwk_json(signer)).ok();
+            }
+            header.kid = hp["kid"].as_str().map(String::from);
+            header.jku = hp["jku"].as_str().map(String::from);
+            header.x5u = hp["x5u"].as_str().map(String::from);
+            header.x5c = hp["x5c"].as_array().map(|a| a.iter().filter_map(|s| s.as_str().map(String::from)).collect());
+            let Ok(forged) = jsonwebtoken::encode(&header, &honest_claims, &keys::holder_enc(signer)) else { return Verdict::Trivial };
+            let o = verify(&with_kb(Some(forged)), Some(&kb.aud), Some(&kb.nonce));
+            // the same key material under another name is the confirmed key itself
+            let same_key = signer == holder;
+            if same_key {
+                // signed by the confirmed key: nothing to assert beyond "no panic"
+                return match o {
+                    Out::Panic(m) => fail(format!("PANIC: {m}"), "Ok or Err"),
+                    _ => Verdict::Pass,
+                };
+            }
+            expect_reject(o, &format!("a KB-JWT signed by the {signer} key (not the confirmed holder key {holder}) whose header carries {}", jstr(hp)))
         }
         "duplicate" => {
             let n = p.disclosures.len();
